@@ -76,13 +76,20 @@ class Topo:
         self.owner[o] = comp
         return o
 
-    def link(self, out, adapters, comp, in_name="in", static_in=False):
-        """adapters: upstream -> downstream list of class names."""
+    def link(self, out, adapters, comp, in_name="in", static_in=False, sink="Input"):
+        """adapters: upstream -> downstream list of class names (or existing adapter Objs to
+        branch from)."""
         src = out
         elems = []
         for cname in adapters:
+            if isinstance(cname, Obj):
+                a = cname
+                elems.append(a)
+                src = a
+                continue
             cls = self.repo.cls(cname)
-            a = Obj(cls=cls, label=f"{cname}#{len(elems)}")
+            self._n_elem = getattr(self, "_n_elem", 0) + 1
+            a = Obj(cls=cls, label=f"{cname}#{self._n_elem}")
             if self.repo.is_subclass(cls, self.repo.cls("ITimeDelayAdapter")):
                 a.fields["_dname"] = f"d{self._n_delay}"
                 self._n_delay += 1
@@ -90,9 +97,12 @@ class Topo:
             src.fields["targets"].append(a)
             elems.append(a)
             src = a
-        inp = Obj(cls=self.repo.cls("Input"), label=f"{comp.label}.{in_name}")
+        if comp is None:
+            return elems
+        inp = Obj(cls=self.repo.cls(sink), label=f"{comp.label}.{in_name}")
         inp.fields.update(source=src, name=in_name, is_static=static_in, _static=static_in)
-        src.fields["targets"].append(inp)
+        if src is not None:
+            src.fields["targets"].append(inp)
         comp.fields["inputs"][in_name] = inp
         self.links.append((out, elems, comp, inp))
         return elems
